@@ -36,6 +36,15 @@ class Esc:
     where: str
     why: str
     kind: str  # 'fact' | 'raise'
+    op: str = ""  # WHAT fails, independent of where the statement lives and how its operands are named (for known-finding matching)
+
+
+def _operation(why: str) -> str:
+    """the failing operation of a fact-table escape: its description without the provenance list, codec names normalised"""
+    import re as _re
+    op = _re.sub(r"\s*\((?:data|codec|path|from)\b[^()]*\[.*\]\)\s*$", "", why)
+    op = _re.sub(r"decode\('([^']*)'\)", lambda m: "decode('" + m.group(1).lower().replace("-", "").replace("_", "") + "')", op)
+    return op
 
 
 def ancestors(p: Program, name: str) -> List[str]:
@@ -174,7 +183,7 @@ class EscapeAnalysis:
                 if kind == "fact":
                     self.caught.add((exc, cons))
                 return
-            out.add(Esc(exc, cons, where(fn, node), why, kind))
+            out.add(Esc(exc, cons, where(fn, node), why, kind, _operation(why)))
 
         def propagate(node: ast.AST, items: FrozenSet[Esc]) -> None:
             for it in items:
